@@ -543,9 +543,12 @@ def r49_per_election_objects(ctx):
             fresh.setdefault(n.targets[0].attr, []).append(n)
     for attr in ('C', 'erecord', 'ballots', 'ballotsEqual', 'rounds', 'rule'):
         sts = fresh.get(attr, [])
-        ok = bool(sts) and all(isinstance(s.value, ast.Call) for s in sts)
+        displays = (ast.List, ast.ListComp, ast.Dict, ast.DictComp, ast.Set, ast.SetComp)     # always a new object
+        ok = bool(sts) and all(isinstance(s.value, (ast.Call,) + displays) for s in sts)
         detail = ''
         for s in sts:
+            if isinstance(s.value, displays):
+                detail = unparse(s.value)[:60]
             if isinstance(s.value, ast.Call):
                 c = s.value
                 tgt = repo.resolve_class_expr(c.func, init.module)
